@@ -19,7 +19,7 @@ from __future__ import annotations
 
 from ..model import ANALYSIS
 from ..xref_engine import (Engine, XrefModel, Exec, Collector, Mut, rule_add_effects, rule_create_xref_driver, rule_xref_effects,
-                           rule_layering, rule_recorders_commute, run_mutants,
+                           rule_layering, rule_recorders_commute, rule_fill_before_xref, run_mutants,
                            m_swap_args, m_set_arg, m_set_receiver, m_rename_call, m_delete_call, m_const, m_replace_src, b_rename_local)
 
 # the thorough tier runs its own in-memory mutation adequacy (MUTANTS / BENIGN below, via xref_engine.run_mutants)
@@ -35,6 +35,8 @@ def core(sink, eng):
     sink.analysed(xm.root)
     rs = [(f, [s for s in Exec(eng, root_cls=eng.mod(ANALYSIS).cls("Analysis")).run(f) if not s.raised])]
     rule_xref_effects(sink, xm, rs)
+    rule_fill_before_xref(sink, eng, xm, rs)
+    sink.floor("keyed_stores", 4)
     rule_layering(sink, xm, rs)
     rule_recorders_commute(sink, eng, xm.getters)
 
